@@ -1664,6 +1664,9 @@ typename olc_db<Key, Value>::get_result olc_db<Key, Value>::get_internal(
   while (true) {
     result = try_get(k);
     if (result) break;
+#ifdef UNODB_DETAIL_VERIF_HOOKS
+    unodb::verif::sched(unodb::verif::RESTART, this);
+#endif
     // TODO(laurynas): upgrade to write locks to prevent starving after a
     // certain number of failures?
   }
@@ -1772,6 +1775,9 @@ bool olc_db<Key, Value>::insert_internal(art_key_type insert_key,
   while (true) {
     result = try_insert(insert_key, v, cached_leaf);
     if (result) break;
+#ifdef UNODB_DETAIL_VERIF_HOOKS
+    unodb::verif::sched(unodb::verif::RESTART, this);
+#endif
   }
 
   return *result;
@@ -1931,6 +1937,9 @@ bool olc_db<Key, Value>::remove_internal(art_key_type remove_key) {
   while (true) {
     result = try_remove(remove_key);
     if (result) break;
+#ifdef UNODB_DETAIL_VERIF_HOOKS
+    unodb::verif::sched(unodb::verif::RESTART, this);
+#endif
   }
 
   return *result;
@@ -2117,6 +2126,9 @@ typename olc_db<Key, Value>::iterator& olc_db<Key, Value>::iterator::next() {
     if (UNODB_DETAIL_LIKELY(try_next())) return *this;
     while (true) {
       bool match{};
+#ifdef UNODB_DETAIL_VERIF_HOOKS
+      unodb::verif::sched(unodb::verif::RESTART, this);
+#endif
       // seek to the current key (or its successor).
       if (!try_seek(akey, match, true /*fwd*/)) continue;
       if (!match) {
@@ -2190,6 +2202,9 @@ typename olc_db<Key, Value>::iterator& olc_db<Key, Value>::iterator::prior() {
     if (UNODB_DETAIL_LIKELY(try_prior())) return *this;
     while (true) {
       bool match{};
+#ifdef UNODB_DETAIL_VERIF_HOOKS
+      unodb::verif::sched(unodb::verif::RESTART, this);
+#endif
       // seek to the current key (or its predecessor)
       if (!try_seek(akey, match, false /*fwd*/)) continue;
       if (!match) {
